@@ -419,7 +419,11 @@ impl FlexScen {
                 None => return "!err".to_string(),
                 Some(p) if p.is_empty() => break,
                 Some(p) => {
-                    cursor = Some(p.last().unwrap().0.clone());
+                    let next = Some(p.last().unwrap().0.clone());
+                    if next == cursor {
+                        break; // no progress (a defect in the code under test): do not walk forever
+                    }
+                    cursor = next;
                     out.extend(p.into_iter().map(|x| x.1));
                 }
             }
@@ -455,6 +459,9 @@ impl FlexScen {
             match self.q_list_votes(id, cur.clone(), Some(30)) {
                 Some(p) if !p.is_empty() => {
                     out.extend(p.iter().map(|e| e.split(':').next().unwrap().to_string()));
+                    if cur == out.last().cloned() {
+                        break;
+                    }
                     cur = out.last().cloned();
                 }
                 _ => break,
@@ -469,7 +476,11 @@ impl FlexScen {
         loop {
             match self.qs::<MemberListResponse>(&self.group, &GroupQuery::ListMembers { start_after: cursor.clone(), limit: Some(30) }) {
                 Some(r) if !r.members.is_empty() => {
-                    cursor = Some(r.members.last().unwrap().addr.clone());
+                    let next = Some(r.members.last().unwrap().addr.clone());
+                    if next == cursor {
+                        break; // no progress (a defect in the code under test): do not walk forever
+                    }
+                    cursor = next;
                     out.extend(r.members.into_iter().map(|m| (Addr::unchecked(m.addr), m.weight)));
                 }
                 _ => break,
